@@ -159,6 +159,8 @@ class Interp:
         self.events = []           # models may record events (allocations, writes..)
         self.called = set()
         self.stop_at = None        # (Function, bb): inductive mode, stop when the loop head is re-entered
+        self.watch = None          # (Function, bb, local): record the local's value at every visit of the block
+        self.watch_log = []
 
     # ---------------------------------------------------------------- scalars
     def binop(self, op, a, b):
@@ -603,7 +605,7 @@ class Interp:
             v = self.models.macro_assoc_const(self, sh, m.group(3))
             if v is not None:
                 return v
-            return None
+            return self.models.named_const(self, t)
         last = t.rsplit('::', 1)[-1]
         if last in self.prog.consts and len(self.prog.consts[last]) == 1:
             return self._const_value(fr, self.prog.consts[last][0])
@@ -836,6 +838,9 @@ class Interp:
             fr.visits[bb] = n
             if self.stop_at is not None and n > 1 and bb == self.stop_at[1] and fr.fn is self.stop_at[0]:
                 raise LoopBack(fr)
+            if self.watch is not None and bb == self.watch[1] and fr.fn is self.watch[0]:
+                c = fr.cells.get(self.watch[2])
+                self.watch_log.append(c.v if c is not None else None)
             if n > self.loop_bound:
                 raise PathEnd('bound', 'loop bound %d at %s %s' % (self.loop_bound, fr.fn.name.rsplit('::', 1)[-1], bb))
             stmts, term = blocks[bb]
